@@ -397,10 +397,124 @@ def _analyse_log_case(ex, f, w, base, bits):
 
 TRIG = ['sin', 'cos', 'tan']
 INV = ['atan', 'asin']
+# ---------------------------------------------------------------- expm1: e^X - 1 = 2^K e^(X - K ln 2) - 1
+def analyse_expm1(mod, fname, base, bits):
+    term, w = lane_term(mod, fname)
+    ex = RFN.Extract()
+    cs = strip_special(ex.cases(term), ex)
+    if not cs or len(cs) > 4:
+        raise Mismatch('%d arithmetic cases' % len(cs))
+    worst = None
+    for (_c, f) in cs:
+        r_ = _expm1_case(ex, term, f, w, bits)
+        if worst is None or r_['ulp_exact'] > worst['ulp_exact']:
+            worst = r_
+    worst['select_cases'] = len(cs)
+    return worst
+
+
+def _expm1_case(ex, term, f, w, bits):
+    one, mant = (0x3f800000, 23) if w == 32 else (0x3ff0000000000000, 52)
+    X = K = S = S2 = None
+    for i in sorted(f.atoms()):
+        bv = ex.atoms[i]
+        t = T.single_term(bv)
+        if t is not None and t.kind == 'arg':
+            X = i
+        elif t is not None and is_round_nearest(t):
+            K = i
+        elif t is not None and t.name.startswith('sum') and t.attrs and t.attrs[0] == one and len(t.attrs[1]) == 1:
+            cf = t.attrs[1][0] % (1 << w)
+            if cf == (1 << mant):
+                S = i
+            elif cf == (1 << w) - (1 << mant):
+                S2 = i                                   # bits(1.0) - (k << mant): 2^-k
+            else:
+                raise Mismatch('unexpected exponent construction')
+        elif t is not None and t.name == 'pow2floor':
+            S = i
+        else:
+            raise Mismatch('unexpected atom %s' % T.fmt(bv, 4)[:100])
+    if X is None or K is None or S is None:
+        raise Mismatch('the template needs X, K = nearbyint(c X), S = 2^K')
+    kt = T.single_term(ex.atoms[K])
+    at = T.single_term(T.canon(kt.ops[0]))
+    if at is None or at.name != 'fmul':
+        raise Mismatch('K is not nearbyint(c * X)')
+    c = [RFN.fconst(o) for o in at.ops if T.is_const(o)][0]
+    g = f
+    if S2 is not None:
+        g = g.subst_rf(S2, RFN.p_const(1), RFN.p_atom(S))          # 2^-k = 1 / 2^k
+    # g = (S^2 a + S b) / (S d)  or  (S a + b) / d
+    def split(p):
+        out = {}
+        for m, v in p.items():
+            d_ = dict(m)
+            e = d_.pop(S, 0)
+            out.setdefault(e, {})[tuple(sorted(d_.items()))] = v
+        return out
+    ns, ds = split(g.num), split(g.den)
+    if ds and min(ds) == 1 and len(ds) == 1 and min(ns) >= 1:
+        ns = dict((e - 1, p_) for e, p_ in ns.items())
+        ds = {0: ds[1]}
+    if set(ds) != set([0]) or not set(ns) <= set([0, 1]) or 1 not in ns:
+        raise Mismatch('the result is not S A(u) + B')
+    d_, a_, b_ = ds[0], ns[1], ns.get(0, {})
+    if RFN.p_add(b_, d_) != {}:
+        raise Mismatch('the additive term is not -1')
+    A = RFN.RF(a_, d_)
+    cx, ck = A.num.get(((X, 1),)), A.num.get(((K, 1),))
+    # the reduced argument from the linear terms of the numerator of A - 1
+    Am1 = RFN.RF(RFN.p_add(A.num, A.den, -1), A.den)
+    cx, ck = Am1.num.get(((X, 1),)), Am1.num.get(((K, 1),))
+    if not cx or ck is None:
+        raise Mismatch('no linear term in X / K')
+    lam_code = -ck / cx
+    Au = A.subst(X, RFN.p_add(RFN.p_atom(X), RFN.p_atom(K), lam_code))
+    if K in Au.atoms():
+        raise Mismatch('the kernel does not depend on X and K through X - lam K alone')
+    N, D = Q.Poly(RFN.p_univariate(Au.num, X)), Q.Poly(RFN.p_univariate(Au.den, X))
+    p = 24 if bits == 32 else 53
+    kmax = 130 if bits == 32 else 1030
+    lam = Q.ln2()
+    delta = (Q.QI(lam_code) - lam).mag()
+    half = Fr(1, 2) + Fr(kmax + 1, 1 << p)
+    U = (half / c + kmax * abs(1 / c - lam_code)) * Fr(1025, 1024)
+    eb = 50 if bits == 32 else 85
+    # K = 0: ((A - 1)/u) against (e^u - 1)/u
+    Nm = N - D
+    if Nm.c[0] != 0:
+        raise Mismatch('A(0) != 1')
+    ser1 = Q.expm1_over_x_series(U, eps_bits=eb)
+    diff1 = Nm.shift_down(1).to_qi() - ser1.poly.to_qi() * D.to_qi()
+    try:
+        q1 = Q.sup_ratio(diff1, D, -U, U, 96, ser1.tail)
+        e1rng = Q.range_qi(ser1.poly.to_qi(), -U, U, 32).widen(ser1.tail)
+        rel0 = q1 / e1rng.mig()
+        # K != 0: |A - e^u| S / |S e^u - 1| <= 3.5 |A/e^u - 1| (S e^u >= 2 e^-U or <= e^U / 2)
+        ser = Q.exp_series(U, Q.QI(1), eps_bits=eb)
+        diff = N.to_qi() - ser.poly * D.to_qi()
+        abs_err = Q.sup_ratio(diff, D, -U, U, 96, ser.tail)
+    except ZeroDivisionError:
+        raise Mismatch('denominator may vanish on the reduced domain')
+    emax = ser.poly.to_qi().ev(Q.QI(U)).widen(ser.tail).hif()
+    emin = 1 / emax
+    amp = max(2 * emin / (2 * emin - 1), (emax / 2) / (1 - emax / 2))      # S e^u / |S e^u - 1| at K = 1 / K = -1
+    y = kmax * delta
+    kappa = y / (1 - y) if y < 1 else Fr(10 ** 6)
+    relk = amp * ((abs_err / emin) * (1 + kappa) + kappa)
+    cw, cw_site = cody_waite_error(ex, term, K, kmax, p)
+    rho = max(rel0, relk) + amp * cw
+    return {'reduced_domain': float(U), 'lambda_code': float(lam_code), 'delta': float(delta), 'kmax': kmax, 'rel_err_k0': float(rel0), 'rel_err_k_ne0': float(relk),
+            'kernel_rel_err': float(rel0), 'const_rel_err': float(amp * kappa), 'cody_waite_ulp': float(ulps(amp * cw, bits)), 'cody_waite_site': cw_site,
+            'ulp': float(ulps(rho, bits)), 'ulp_exact': ulps(rho, bits), 'degree': (N.deg(), D.deg())}
+
+
 FUNCS = [('exp', analyse_exp, 'e'), ('exp2', analyse_exp, '2'), ('exp10', analyse_exp, '10'),
          ('log', analyse_log, 'e'), ('log2', analyse_log, '2'), ('log10', analyse_log, '10'),
          # log1p(x) = k ln 2 + log m with 1 + x = m 2^k (the correction term for the rounding of 1 + x is zero in the real reading)
-         ('log1p', analyse_log, 'e')]
+         ('log1p', analyse_log, 'e'),
+         ('expm1', analyse_expm1, 'e')]
 
 
 def applicable(fn, bits, cfgname):
